@@ -1,6 +1,7 @@
 """C05 - parse -> write -> parse preserves content; written text is a fixpoint."""
 import gens_split as G
 import splitcommon as SC
+from props import c05_fmt as FE
 
 ENGINE = "roundtrip"
 RULE = ("grammar derivations (DESIGN.md section 3; duplicate-free; incl. resolved / unresolved / chained @string references, "
@@ -12,7 +13,13 @@ RULE = ("grammar derivations (DESIGN.md section 3; duplicate-free; incl. resolve
         "entry using 300 of them), counts next to 64..999, one entry with 257..1100 (thorough: ..4099) fields, and 1000+ levels of "
         "braces in every block kind) x BibtexFormat settings "
         "(indent in {'', tab, 2/4 spaces}, value_column in {0,1,7,20,'auto'}, trailing_comma, whitespace-only block_separator in "
-        "{'', '\\n', '\\n\\n', ' \\n\\t\\n'}); default parse and write stacks; distinct = distinct (document, format); "
+        "{'', '\\n', '\\n\\n', ' \\n\\t\\n'}); plus the stream `fmtedge` (props/c05_fmt.py): EDGE VALUES of every setting x every block kind "
+        "at every position - block_separator and indent from a pool of ~70 whitespace-only strings (empty, one blank, ending in blanks, not "
+        "ending in a newline, carriage returns, every other str.isspace() character alone and next to a newline / blank, long), "
+        "value_column 0 / 1 / len(key)+2,+3,+4 / very large / 'auto', both trailing commas; single blocks, every ordered pair and every "
+        "triple of {free text, @comment, @preamble, @string, entry}, tours through all 24 adjacencies under EVERY separator of the pool, "
+        "entries with 0..4 fields under EVERY indent of the pool; "
+        "default parse and write stacks; distinct = distinct (document, format); "
         "non-trivial = the document has an entry with a field, or at least two blocks")
 TRUSTED = ["the model side composes Model/Splitter, Model/Interpolate, Model/Enclosing and Model/Writer (op 150)"]
 ASSUMPTIONS = ["block_separator and indent are whitespace-only (a non-whitespace separator is written verbatim between blocks by C06 and "
@@ -86,6 +93,9 @@ def generate(rng, tier):
         text, n_blocks = size_doc(spec)
         fmt = {"indent": rng.choice(INDENTS), "column": rng.choice(COLUMNS), "trailing": rng.random() < 0.5, "sep": rng.choice(SEPS)}
         cases.append({"stream": "size", "input": {"text": text, "fmt": fmt, "n_items": n_blocks, "size": spec}})
+    # EDGE VALUES of every BibtexFormat setting x every block kind at every position (props/c05_fmt.py); after all other
+    # streams, so that those keep their inputs
+    cases += FE.generate(rng, tier)
     return cases
 
 
@@ -247,6 +257,7 @@ def impl(case):
     rec = {"key": str(hash((text, str(inp["fmt"])))), "tags": [case["stream"]]}
     if inp.get("size"):
         rec["tags"].append("size:" + inp["size"]["shape"])
+    rec["tags"] += inp.get("labels", [])
     fm = inp["fmt"]
     rec["sx_in"] = [150, enc.enc_str(text), [enc.enc_str(fm["indent"]), ([] if fm["column"] == "auto" else [fm["column"]]),
                                             enc.enc_str(fm["sep"]), int(fm["trailing"]), enc.enc_str(bibtexparser.BibtexFormat().parsing_failed_comment)]]
@@ -259,6 +270,9 @@ def impl(case):
         rec["summary"] = "raised " + r[2]
         return rec
     l1, t1, l2, t2 = r[1]
+    if case["stream"] == "fmtedge":
+        # where each kind of block stands in the PARSED document (first / middle / last, neighbours), for the distribution
+        rec["tags"] += FE.position_tags([type(b).__name__ for b in l1.blocks])
     rec["sx_out"] = implutil.r_ok([enc.enc_str(t1), [enc.enc_block(b, abstract_prev=True) for b in l2.blocks], enc.enc_str(t2)])
     ok, detail = True, ""
     c1, c2 = snap[0], SC.content(l2)
